@@ -32,3 +32,50 @@ func VerifC18_GetRand() {
 	p20 := verifPow10(RandPrec)
 	verifAssert(new(big.Int).Mod(p20, den).Sign() == 0, "at most 20 fractional digits")
 }
+
+// c18Reference: the number the property specifies, written out independently of GetRand: with t the block time,
+//
+//	seed = t + H(appHash)/t + H(requester)/t [+ H(oracleSeed)/t]      (integer divisions, H = SHA-256 as a 256-bit number)
+//	number = (H(bytes(seed)) mod 10^20) / 10^20
+func c18Reference(appHash []byte, t int64, requester, oracleSeed []byte, oracle bool) *big.Rat {
+	T := big.NewInt(t)
+	h := func(b []byte) *big.Int { return new(big.Int).SetBytes(SHA256(b)) }
+	sum := new(big.Int).Set(T)
+	sum = new(big.Int).Add(sum, new(big.Int).Div(h(appHash), big.NewInt(t)))
+	sum = new(big.Int).Add(sum, new(big.Int).Div(h(requester), big.NewInt(t)))
+	if oracle {
+		sum = new(big.Int).Add(sum, new(big.Int).Div(h(oracleSeed), big.NewInt(t)))
+	}
+	p20 := verifPow10(RandPrec)
+	return new(big.Rat).SetFrac(new(big.Int).Mod(h(sum.Bytes()), p20), p20)
+}
+
+// C18 (derivation): the number is exactly the specified function of the previous block's app hash, the block
+// time, the requester and - for oracle-seeded requests only - the oracle seed; every term is divided by the
+// block time itself.  Concrete block times (the hash of the mixed seed is then a real SHA-256), both request
+// kinds, two seeds, empty and non-empty app hash.
+func VerifC18_Derivation() {
+	verifExpect("plain", "oracle")
+	t := []int64{1, 7, 1700000000, 1700000001, 1 << 40}[verifChoice("blockTime", 5)]
+	var appHash []byte
+	if verifChoice("emptyAppHash", 2) == 0 {
+		appHash = []byte("some-app-hash-of-the-previous-block")
+	}
+	requester := []byte{1, 2, 3, 4, 5, 6, 7, 8, 9, 10, 11, 12, 13, 14, 15, 16, 17, 18, 19, byte(20 + verifChoice("requester", 2))}
+	oracle := verifChoice("oracle", 2) == 1
+	var seed []byte
+	if oracle {
+		seed = make([]byte, SeedBytesLength)
+		seed[0], seed[31] = byte(7+verifChoice("seed", 2)), 0xfe
+		verifCover("oracle")
+	} else {
+		verifCover("plain")
+	}
+	got := MakePRNG(appHash, t, requester, seed, oracle).GetRand()
+	want := c18Reference(appHash, t, requester, seed, oracle)
+	verifAssert(got.Num().Cmp(want.Num()) == 0 && got.Denom().Cmp(want.Denom()) == 0, "the number is the specified function of app hash, block time, requester and oracle seed")
+	verifAssert(got.FloatString(RandPrec) == want.FloatString(RandPrec) && len(got.FloatString(RandPrec)) == 2+RandPrec, "its text has exactly 20 fractional digits")
+	// the same inputs give the same number again; the generator does not disturb its inputs
+	again := MakePRNG(appHash, t, requester, seed, oracle).GetRand()
+	verifAssert(again.Num().Cmp(got.Num()) == 0 && again.Denom().Cmp(got.Denom()) == 0, "the same chain data give the same number")
+}
